@@ -14,7 +14,11 @@ rsync -a --exclude .git --exclude /jqawk /repo/ "$SCR/"
 if [ "$1" = "--reverse" ]; then
   # several commits of one repair are given as a+b (oldest first) and undone newest first
   for h in $(echo "$2" | tr '+' '\n' | tac); do
-    git -C /repo show "$h" -- src cli | (cd "$SCR" && patch -R -p1 -s) || { echo "SKIP reverse of $h does not apply"; exit 3; }
+    # lines of an old commit that a later commit (36f0a12: Array became a pointer) rewrote are brought to today's spelling first
+    git -C /repo show "$h" -- src cli > "$SCR/.rev.diff"
+    (cd "$SCR" && patch -R -p1 -s --dry-run < .rev.diff >/dev/null 2>&1) || sed -i -E 's/len\(v\.Array\)/len(*v.Array)/g; s/range v\.Array/range *v.Array/g; s/:= value\.Value\.Array$/:= *value.Value.Array/' "$SCR/.rev.diff"
+    (cd "$SCR" && patch -R -p1 -s < .rev.diff) || { echo "SKIP reverse of $h does not apply"; exit 3; }
+    rm -f "$SCR/.rev.diff" "$SCR"/src/*.orig "$SCR"/src/*.rej
   done
   NAME="reverse-of-$2"; shift 2
 else
